@@ -311,7 +311,7 @@ M("m45", "C07", "R7.8", PVI, "        self.value_history[0] = np.array(self.valu
 M("m45b", "C07", "R7.1", PVI, "        self.value_history = np.zeros((self.period + 1, self.problem.n_states))", "        self.value_history = np.zeros((self.period, self.problem.n_states))",
   "buffer one row short", survives="(yes)")
 MUTANTS[-1]["rule"] = ["R7.1", "R7.8"]
-M("m45c", "C07", "R7.5", PVI, "        if gamma == 1.0:\n            return self._calculate_period_span_without_discount(", "        if gamma != 1.0:\n            return self._calculate_period_span_without_discount(",
+M("m45c", "C07", ["R7.5", "R7.2"], PVI, "        if gamma == 1.0:\n            return self._calculate_period_span_without_discount(", "        if gamma != 1.0:\n            return self._calculate_period_span_without_discount(",
   "branches swapped", survives="(yes)")
 M("m45d", "C07", "R7.7", PVI, "    def _iteration_step(self) -> tuple[ValueFunction, float]:\n        \"\"\"Perform one iteration of the solution algorithm.",
   "    def _get_value_next_state(self, next_state, values):\n        return values[0]\n\n    def _iteration_step(self) -> tuple[ValueFunction, float]:\n        \"\"\"Perform one iteration of the solution algorithm.",
